@@ -1,7 +1,8 @@
 #include "c12.contracts.h"
 H3Index h3v_w, h3v_w2, h3v_v;
 int64_t h3v_g, h3v_n, h3v_dist;
-H3Error h3v_err;
+H3Error h3v_err, h3v_derr;
+double h3v_dbl;
 #define RES_TABLE_H(NAME) void h_##NAME(void) { int res = nondet_int(); double *out; H3Error e = NAME(res, out); __CPROVER_assert(0, "canary " #NAME); }
 RES_TABLE_H(getHexagonAreaAvgKm2)
 RES_TABLE_H(getHexagonAreaAvgM2)
@@ -35,3 +36,14 @@ void h_cellToLocalIjk(void) { H3Index origin = nondet_u64(), h = nondet_u64(); C
 
 void h_gridDiskDistancesUnsafe(void) { H3Index origin = nondet_u64(); int k = nondet_int(); H3Index *out; int *distances; h3v_n = nondet_i64();
     H3Error e = gridDiskDistancesUnsafe(origin, k, out, distances); __CPROVER_assert(0, "canary gridDiskDistancesUnsafe"); }
+
+#define DBL_H(NAME) void h_##NAME(void) { H3Index x = nondet_u64(); double *out; h3v_derr = nondet_u32(); h3v_dbl = nondet_double(); H3Error e = NAME(x, out); __CPROVER_assert(0, "canary " #NAME); }
+DBL_H(cellAreaKm2)
+DBL_H(cellAreaM2)
+DBL_H(edgeLengthKm)
+DBL_H(edgeLengthM)
+void h_greatCircleDistanceKm(void) { LatLng a, b; h3v_dbl = nondet_double(); double r = greatCircleDistanceKm(&a, &b); __CPROVER_assert(0, "canary greatCircleDistanceKm"); }
+void h_greatCircleDistanceM(void) { LatLng a, b; h3v_dbl = nondet_double(); double r = greatCircleDistanceM(&a, &b); __CPROVER_assert(0, "canary greatCircleDistanceM"); }
+void h_degsToRads(void) { double r = degsToRads(nondet_double()); __CPROVER_assert(0, "canary degsToRads"); }
+void h_radsToDegs(void) { double r = radsToDegs(nondet_double()); __CPROVER_assert(0, "canary radsToDegs"); }
+void h_gridDiskUnsafe(void) { H3Index origin = nondet_u64(); int k = nondet_int(); H3Index *out; h3v_err = nondet_u32(); h3v_n = nondet_i64(); H3Error e = gridDiskUnsafe(origin, k, out); __CPROVER_assert(0, "canary gridDiskUnsafe"); }
